@@ -1200,6 +1200,26 @@ def translate(repo):
           "Definition src_spawn_task : list spawn_stmt := [%s]." % "; ".join(sp[2]), ""]
 
 
+    # ---- src/util.rs: copy_async -- the buffer length and the shape of its loop
+    cp = None
+    try:
+        usrc = read(repo, "src/util.rs")
+        t = re.sub(r"\s+", "", fn_body(usrc, "pub async fn copy_async"))
+        m = re.fullmatch(r"letmutbuf=Box::pin\(<FixedBuf<(\d+)>>::new\(\)\);letmutnum_copied=0;loop\{"
+                         r"matchreader\.read\(buf\.writable\(\)\)\.await\{Ok\(0\)=>returnCopyResult::Ok\(num_copied\),Ok\(n\)=>buf\.wrote\(n\),Err\(e\)=>returnCopyResult::ReaderErr\(e\),\}"
+                         r"letreadable=buf\.read_all\(\);"
+                         r"matchwriter\.write_all\(readable\)\.await\{Ok\(\(\)\)=>num_copied\+=readable\.len\(\)asu64,Err\(e\)=>returnCopyResult::WriterErr\(e\),\}\}", t)
+        if not m:
+            raise ValueError("shape")
+        cp = int(m.group(1))
+    except Exception as e:   # noqa
+        P.append("src/util.rs copy_async: cannot translate (%s)" % e)
+        cp = 0
+    L += ["(* src/util.rs copy_async: FixedBuf<N>; the loop (read into the whole writable part: 0 => Ok(num), n => wrote, Err => ReaderErr;",
+          "   read_all; write_all: Ok => num += len, Err => WriterErr) has the shape Model/Response.v transcribes *)",
+          "Definition src_copy_buf_len : N := %d." % cp, ""]
+
+
     # ---- src/token_set.rs: TokenSet::new, the three ways to take a token, Token::drop -- statement by statement
     tk = dict(new=[], drop=[], takes=[])
     try:
@@ -1369,7 +1389,7 @@ def translate(repo):
     items = [("chunk", "src/util.rs"), ("event_queue", "src/response.rs event_stream"), ("conn_buf", "src/http_conn.rs HttpConn.buf"), ("conn_guards", "src/http_conn.rs state guards"),
              ("time", "src/time.rs"), ("content_type", "src/content_type.rs"), ("log_prio", "src/log/logger.rs log()"),
              ("event_fmt", "src/event.rs"), ("regex", "src/head.rs: cannot translate the regex"), ("cookie", "src/cookie.rs"), ("request", "src/request.rs"),
-             ("json", "src/log/tag_value.rs"), ("jsonl", "src/log/logger.rs write_jsonl"), ("writer", "src/log/log_file_writer.rs"), ("headers", "src/headers.rs"), ("pfs", "src/log/prefix_file_set.rs"), ("token_set", "src/token_set.rs"), ("write_response", "src/http_conn.rs write_response"), ("conn_loop", "src/http_conn.rs handle_http_conn"), ("resp_head", "src/response.rs write_http_response"), ("accept", "src/accept.rs accept_loop"), ("try_read", "src/head.rs try_read"), ("read_body", "src/http_conn.rs read_body"), ("read_head", "src/head.rs read_http_head"), ("spawn", "src/lib.rs spawn")]
+             ("json", "src/log/tag_value.rs"), ("jsonl", "src/log/logger.rs write_jsonl"), ("writer", "src/log/log_file_writer.rs"), ("headers", "src/headers.rs"), ("pfs", "src/log/prefix_file_set.rs"), ("token_set", "src/token_set.rs"), ("write_response", "src/http_conn.rs write_response"), ("conn_loop", "src/http_conn.rs handle_http_conn"), ("resp_head", "src/response.rs write_http_response"), ("accept", "src/accept.rs accept_loop"), ("try_read", "src/head.rs try_read"), ("read_body", "src/http_conn.rs read_body"), ("read_head", "src/head.rs read_http_head"), ("spawn", "src/lib.rs spawn"), ("copy_async", "src/util.rs copy_async")]
     L.append("(* what the translator could not read, per item (0 everywhere = the translation is complete) *)")
     for key, prefix in items:
         L.append("Definition src_problems_%s : nat := %d." % (key, sum(1 for p in P if p.startswith(prefix))))
